@@ -27,6 +27,59 @@ def _tag(line, out):
     return "plain"
 
 
+RACE_ENV = {"GORACE": "halt_on_error=1"}
+
+
+def sched(ctx, n, name="race"):
+    """Forced schedules of buffered mode: the harness runs each script against the real handler, the protocol model
+    (TraceProto, theorems buffered_never_blocks / buffered_no_tear_no_dup / buffered_drop_only_when_full) computes the set
+    of outcomes the script allows, and the implementation's outcome must be in it."""
+    if name not in ctx.harness_bin:
+        return
+    import json
+    if ctx.replay:
+        rep = json.load(open(ctx.replay))
+        if rep.get("area") != "sched":
+            return
+        lines = rep["ops"] * 20          # scheduling is not reproducible run by run: try the script a number of times
+    else:
+        total = n[ctx.tier] if isinstance(n, dict) else n
+        lines = ctx.corpus("sched") + ctx.gen("sched", ctx.seed * 104729 + 5, total, name)
+    outs = ctx.run_impl("sched", lines, name, timeout=900, extra_env=RACE_ENV)
+    if outs is None:
+        return
+    verdicts = ctx.run_model("drv_c13", ["judge %s => %s" % (l, o) for l, o in zip(lines, outs)], timeout=1200)
+    if verdicts is None:
+        ctx.violations.append({"kind": "correspondence", "concrete": False,
+                               "what": "model driver drv_c13 failed on the forced-schedule stream"})
+        return
+    ctx.rules.append("area sched: scripted schedules of buffered mode (producers released in scripted order, sink gated by "
+                     "permits, BufferDepth 1..N); a case is one script; the verdict is membership of the implementation's "
+                     "outcome in the set of outcomes the protocol model allows for the script")
+    bad = 0
+    for l, o, v in zip(lines, outs, verdicts):
+        ctx.evals += 1
+        ctx.kinds["sched:script"] = ctx.kinds.get("sched:script", 0) + 1
+        ctx.distinct.add(("sched|" + l + "|" + o)[:400])
+        if v.startswith("ok"):
+            k = v.split("allowed=")[-1]
+            t = "sched-allowed-1" if k == "1" else "sched-allowed-2..9" if len(k) == 1 else "sched-allowed-10+"
+            ctx.tags[t] = ctx.tags.get(t, 0) + 1
+            if len(ctx.samples) < 16 and ctx.kinds["sched:script"] % 200 == 1:
+                ctx.samples.append({"area": "sched", "op": l[:200], "impl": o[:160], "model": v})
+            continue
+        bad += 1
+        if bad <= 3:
+            rep = {"property": ctx.id, "kind": "forced-schedule", "area": "sched", "harness": name, "ops": [l],
+                   "impl_outputs": [o], "model_outputs": [v], "concrete_failing_input": True,
+                   "contradicts": "C13.buffered_never_blocks / buffered_no_tear_no_dup / buffered_drop_only_when_full: the "
+                                  "outcome is not among those the protocol allows for this script"}
+            ctx.violations.append({"kind": "forced-schedule", "what": "sched: %s on `%s`" % (v[:200], l[:160]),
+                                   "replay": ctx._write_replay(rep), "concrete": True})
+    if ctx.replay:
+        print("replay: %d of %d runs of the script gave an outcome the protocol does not allow" % (bad, len(lines)))
+
+
 def run(ctx):
     ctx.modelled += [
         "leaf rendering (strconv.Quote, time RFC3339Nano, slog.Value.String, LogValuer resolution) and the record's time "
@@ -62,13 +115,14 @@ def run(ctx):
              trivial=lambda l, o: l.split(" ", 1)[0] in ("new", "mnew", "mode", "hold", "wg", "wa", "setlevel"),
              tagger=_tag, timeout=1500,
              theorem="C13.format_spec / one_write_per_record / derive_isolated / stack_lines_follow / "
-                     "buffered_no_dup_no_tear / fanout_each_enabled_once / fanout_nil_iff_all_ok / "
+                     "buf_fifo_no_dup_no_tear / fanout_each_enabled_once / fanout_nil_iff_all_ok / "
                      "fanout_errors_collected / handle_errors_collected_heap / handle_keeps_child_errors / with_applies_to_all (model = spec); impl != model on this history")
     ctx.impl_oracle("recovery", {"quick": 48, "thorough": 480}, timeout=300,
                     label="errs.Recovery on its own: no panic escapes, the handler is called once with an error that leads "
                           "back to the panic value, for every kind of panic value and handler")
     if ctx.harness("./cmd/c13", name="race", race=True):
+        sched(ctx, {"quick": 1500, "thorough": 40000})
         ctx.impl_oracle("stress", {"quick": 40, "thorough": 600}, name="race", timeout=1500,
                         label="schedules: whole-record writes, per-goroutine order, sink error to its caller, "
                               "buffered never blocks / no tear / no duplicate (race build)",
-                        extra_env={"GORACE": "halt_on_error=1"})
+                        extra_env=RACE_ENV)
